@@ -168,7 +168,7 @@ ADDED = {
     "C17": ("", " Also: the Vec<User> database matches users and sessions by whole-string equality of uid / token (predicate closures, helpers and Option::map_or followed)."),
     "C18": ("; R-ARITH (hv/qlin, hv/symx): quasi-linear / piecewise integer expressions extracted from MIR decided for every input by a periodic case split",
             " Also decided for every input: SHA-1 padded length, marker index, bit-count position and value, block-loop bound; HTTP date day number, second of day, "
-            "weekday, hour, minute, second as functions of the timestamp. Year / month / day-of-month are not decided."),
+            "weekday, hour, minute, second as functions of the timestamp."),
     "C19": ("", " Also: every listed X-Forwarded-For element is recorded (trim-only derivation, elements dropped only when IpAddr::from_str rejects them)."),
     "C20": ("", " Also: nothing in the accept cycle blocks other than accept (bounded channels, joins, sleeps are rejected); tokio connection tasks are detached "
                 "(no JoinSet / abort handle whose drop would cut responses in flight)."),
@@ -208,6 +208,32 @@ ADDED2 = {'C01': ('',
          're-mapping of the parsed list).')}
 
 
+# clauses added after the refactoring rounds and the third round of seeded changes (DESIGN.md §7.2, §7.5, §7.5b)
+ADDED3 = {
+ 'C01': ('; MIR normalisation (helper inlining, combinator lowering; hv/inline.py)', ' Round 3: no UTF-8-validating read in the request parser (malformed bytes must not look like an I/O failure); '
+         'the error map is also read from the MIR; the pool isolation rules of C08 (a panicking handler costs only its own connection, threaded runtime).'),
+ 'C02': ('; MIR normalisation (hv/inline.py)', " Round 3: the request target is cut at its first '?' and header lines at their first ':' (splitn(2, c) / split_once(c) only)."),
+ 'C04': ('; MIR normalisation (hv/inline.py)', " Round 3: the path that is matched is the target up to its first '?'; loop and combinator spellings of the three selections are followed."),
+ 'C06': ('; R-BYTECLASS (hv/byteset.py)', ' Round 3: the index-file loop is left early only with the file found (a missing index.html does not end the search).'),
+ 'C07': ('', " Round 3: response header lines are cut at their first ':'; every header name the serialiser prints parses back to the same header."),
+ 'C09': ('', " Round 3: X-Forwarded-For is added on every path to the upstream write; the relayed URI is a copy of request.uri itself; response header lines are cut at their first ':'."),
+ 'C10': ('; R-BYTECLASS for Opcode::try_from when it is not a match', ''),
+ 'C12': ('', ' Round 3: when a ping is due every registered stream is pinged (no other condition on the ping).'),
+ 'C13': ('; R-BYTECLASS over char (hv/byteset.py): escape table, unescaped set, serialiser classes decided for every code point', ''),
+ 'C14': ('', ' Round 3: primitive IntoJson conversions are unconditional (number -> Number, bool -> Bool, string -> String on every path).'),
+ 'C15': ('', ' Round 3: string tables are also read from the MIR (match and if-chains alike); the section list is the one list appended to in line order; '
+         'no RouteConfig field is taken out of a value an earlier pattern of the same route consumed.'),
+ 'C16': ('', ' Round 3: every call of set stores the value unless value.len() > cache_limit; size update and queue operation are paired in either order.'),
+ 'C17': ('; R-BYTECLASS for the per-byte hex encoding of the token', ''),
+ 'C18': ('; R-BYTECLASS (hv/byteset.py): byte-value sets per block and finite evaluation of byte expressions',
+         ' Round 3: percent-encoding (kept = unreserved exactly, escape = % + two upper-case hex digits) and -decoding (literal copy except %, both digits '
+         'hexadecimal, value = 16 hi + lo) decided for every byte in any spelling; year / month / day of the HTTP date decided for every timestamp '
+         '(400-year reduction symbolically, one 146 097-day cycle exhaustively on the extracted expressions, the month loop by data flow).'),
+ 'C19': ('; R-TRUTH (hv/booleval.py): truth table of verify_connection over (mode == Block, listed)', ' Round 3: every address of the forwarded chain is tested (not only origin and last hop).'),
+ 'C20': ('', ' Round 3: tasks queued before the Shutdown message are still run (the pool rules of C08).'),
+}
+
+
 NOT_APPLICABLE = {
     "C05": "Correctness of the wildcard matcher is a language-equivalence fact about a loop with data-dependent backtracking over all "
            "(pattern, text) pairs; no necessary condition visible in the shape of the code separates the current (wrong on '*aab'/'aaab') "
@@ -228,6 +254,8 @@ def main():
                 tech, text = tech + ADDED[pid][0], text + ADDED[pid][1]
             if pid in ADDED2:
                 tech, text = tech + ADDED2[pid][0], text + ADDED2[pid][1]
+            if pid in ADDED3:
+                tech, text = tech + ADDED3[pid][0], text + ADDED3[pid][1]
             checks.append({
                 "property_id": pid,
                 "quick_cmd": f"./check {pid} --tier quick",
